@@ -257,6 +257,7 @@ pub fn run() -> usize {
             nontrivial: true,
             unbounded: false,
             loop_body: false,
+            sometimes: vec![],
         };
         let rep = explore(&sc, 0, 1, None);
         let model_outcomes = outcomes.lock().unwrap().clone();
